@@ -164,6 +164,7 @@ func (t *Tr) instr(in ssa.Instruction) {
 	case *ssa.MakeClosure:
 		r := t.newRef(st)
 		t.vals[x] = &Val{T: r, Closure: x, KnownLen: -1}
+		t.closureAxioms(x, r)
 	case *ssa.Lookup:
 		t.lookup(x)
 	case *ssa.MapUpdate:
